@@ -1009,8 +1009,8 @@ class Interp:
         elif op == 'Slice':
             s.do_slice(st, fr, ins)
         elif op == 'MakeSlice':
-            ln = s.operand(fr, A[0], st)
-            cp = s.operand(fr, A[1], st)
+            ln = s.index_val(fr, A[0], st, s.opnd_type(fr, A[0]))
+            cp = s.index_val(fr, A[1], st, s.opnd_type(fr, A[1]))
             et = ty(ins['type'])['elem']
             R[ins['reg']] = s.alloc_slice(st, et, ln, cp, s.lbl(fr, ins))
         elif op == 'Convert':
@@ -1636,6 +1636,35 @@ class Interp:
         s.store(st, Ptr(dst.obj, dst.path), tuple(newd))
         return n
 
+    def append_uniform(s, st, dst, src, n, et, ins, fr):
+        """append of a symbolic number of EQUAL concrete elements (the append(x, make([]T, n)...) idiom)"""
+        sarr, _ = s.slice_elems(st, src)
+        v0 = sarr[0] if len(sarr) else zero(et)
+        if any(is_sym(x) or x != v0 for x in sarr):
+            raise Unsupported('append of a symbolic number of non-uniform elements')
+        lim = st.alloc_limit if st.alloc_limit is not None else s.ctx.alloc_limit
+        dl = simp_i(dst.len) if dst.obj is not None else 0
+        lab = s.lbl(fr, ins, 'append-limit') if fr is not None else 'append-limit'
+        s.vc(st, And(sge(n, 0), sle(add64(dl, n), lim)), lab, {'alloc': True, 'alloc_bytes': 0})
+        old = []
+        if dst.obj is not None:
+            darr, _ = s.slice_elems(st, dst)
+            off = s.concrete_int(st, dst.off, 'append offset')
+            old = list(darr[off:])
+        vals = []
+        hi = add64(dl, n)
+        for k in range(lim):
+            cur = old[k] if k < len(old) else zero(et)
+            inr = to_bool(And(sle(dl, k), slt(k, hi)))
+            if inr is True:
+                vals.append(v0)
+            elif inr is False:
+                vals.append(cur)
+            else:
+                vals.append(merge_typed(inr, v0, cur, et))
+        oid = s.new_obj(st, tuple(vals), arr_type(et, lim))
+        return Slice(oid, (), 0, simp_i(hi), lim)
+
     def do_append(s, st, dst, src, ins, fr):
         et = ty(ins['type'])['elem']
         if isinstance(src, Str):
@@ -1644,7 +1673,10 @@ class Interp:
             return dst
         n = simp_i(src.len)
         if is_sym(n):
-            n = s.concrete_int(st, n, 'append count')
+            try:
+                n = s.concrete_int(st, n, 'append count')
+            except Unsupported:
+                return s.append_uniform(st, dst, src, n, et, ins, fr)
         if n == 0:
             return dst
         svals = [s.slice_get(st, src, j) for j in range(n)]
